@@ -18,7 +18,7 @@ from ..dataflow import Flow, chain, call_name
 from ..absint import Interp
 from ..poly import Poly, le, lt, eq, entails
 from ..util import formals, calls_in, qual, returns_of, has_fact
-from ..terms import Terms, reify, plain, is_none, mk_cmp, show, match, V, ANY, \
+from ..terms import subterms, Terms, reify, plain, is_none, mk_cmp, show, match, V, ANY, \
     decide_ites
 
 MOD = "rig.machine_control.packets"
@@ -197,6 +197,16 @@ def r2_decoder(program, folder, rep, fmt, enc):
     inst = qual(fn)
     mod = fn._module
     const_of = _folder_const(folder, mod)
+    # (loops over a literal tuple - ("dest", ..), ("src", ..) - are read as
+    # the statements they stand for)
+    from ..util import unroll_literal_loops
+    fn_u, n_unrolled = unroll_literal_loops(fn)
+    if n_unrolled:
+        fn_u._module, fn_u._qualname = fn._module, fn._qualname
+        for x_ in ast.walk(fn_u):
+            for y_ in ast.iter_child_nodes(x_):
+                y_._parent = x_
+        fn = fn_u
     T = Terms(fn)
     pkt, raw = [a.arg for a in fn.args.args][:2]
     ups = [c for c in calls_in(fn, "unpack_from")
@@ -239,15 +249,58 @@ def r2_decoder(program, folder, rep, fmt, enc):
         slot_name[unparse(reify(("comp", U, i)))] = off
     dec = {}
     n_fields = 0
+    # the fields stored into the packet: packet.f = v, or setattr(packet,
+    # <name that folds to a constant>, v)
+    from ..terms import fold_consts
+
+    class _Store(object):
+        def __init__(self, field, term, node_ast):
+            self.field, self.term, self.ast = field, term, node_ast
+    stored = []
     for b_ in T.binds:
         if not b_.var.startswith(pkt + ".") or b_.mode not in (
                 "assign",) or b_.value is None:
             continue
-        field = b_.var[len(pkt) + 1:]
+        stored.append(_Store(b_.var[len(pkt) + 1:], T._bind_term(b_),
+                             b_.node.ast))
+    for c_ in calls_in(fn, "setattr"):
+        if len(c_.args) != 3:
+            continue
+        cn_ = T.cfg.node_containing(c_)
+        if T.term(c_.args[0], cn_) != ("param", pkt):
+            continue
+        nm_ = fold_consts(plain(T.term(c_.args[1], cn_)), const_of)
+        if nm_[0] != "const" or not isinstance(nm_[1], str):
+            raise AnalysisError("_unpack_sdp_into_packet: a field is stored "
+                                "with setattr under a name that does not "
+                                "fold to a constant")
+        stored.append(_Store(nm_[1], T.term(c_.args[2], cn_), c_))
+    for st_ in stored:
+        field = st_.field
         if field == "data":
             continue
         n_fields += 1
-        t = T._bind_term(b_)
+        t = st_.term
+        def _only_items(x_, parent=None):
+            # U may occur only as the tuple a component is taken from
+            if x_ == U:
+                return parent is not None and parent[0] == "comp" and \
+                    parent[1] == U
+            if not isinstance(x_, tuple) or not x_ or x_[0] == "const":
+                return True
+            return all(_only_items(y_, x_) for y_ in x_
+                       if isinstance(y_, tuple))
+        if not any(x_ == U for x_ in subterms(t)) or not _only_items(t):
+            # the value does not come straight out of the unpacked header
+            # (an iterator over it consumed with next(), a helper ...)
+            raise AnalysisError("_unpack_sdp_into_packet: %s is not taken "
+                                "from the items of the unpacked header "
+                                "directly; that form is not analysed" %
+                                field)
+
+        class b_(object):        # (the node the reports point at)
+            class node(object):
+                ast = st_.ast
         if field == "reply_expected":
             ok = False
             if t[0] == "cmp" and t[1] == "Eq":
@@ -473,22 +526,38 @@ def r3_scp_decoder(program, folder, rep):
     L = it.flow._composite("len(%s)" % data_var, [Poly.atom(data_var)],
                            ("len", Poly.atom(data_var)))
     seen = {}
+    # which packet field takes which item of which unpack: read off the
+    # value terms (a tuple target, an indexed temporary, [0] ... alike)
+    from .C20 import _fmt_norm
+    TT = Terms(fn)
+    pkt_fields = {}
+    for b_ in TT.binds:
+        if "." in b_.var and b_.mode in ("assign", "unpack") and \
+                b_.var.split(".")[-1] in ("cmd_rc", "seq", "arg1", "arg2",
+                                          "arg3"):
+            try:
+                vt = TT._bind_term(b_)
+            except AnalysisError:
+                continue
+            pkt_fields.setdefault(b_.var.split(".")[-1], []).append(vt)
     for c in ups:
         fmt = const_of_str(folder, c.args[0], mod).replace(" ", "")
         node = it.cfg.node_containing(c)
-        asg = c._parent
-        tg = asg.targets[0] if isinstance(asg, ast.Assign) else None
-        names = [chain(t) for t in tg.elts] if isinstance(tg, ast.Tuple) \
-            else [chain(tg)] if tg is not None else []
-        fields = [n.split(".")[-1] for n in names if n]
-        if fmt == "<2H":
+        tc = TT.term(c, TT.cfg.node_containing(c))
+        by_index = {}
+        for fname, vts in pkt_fields.items():
+            for vt in vts:
+                if vt[0] == "comp" and vt[1] == tc:
+                    by_index[vt[2]] = fname
+        fields = [by_index[i] for i in sorted(by_index)]
+        if _fmt_norm(fmt) == _fmt_norm("<2H"):
             ok = fields == ["cmd_rc", "seq"] and len(c.args) == 2 and \
                 chain(c.args[1]).endswith(".data")
             rep.check(ok, "C15-R3", inst, "cmd_rc, seq are decoded with "
                       "'<2H' from the start of the SDP payload",
                       construct="cmd_rc/seq decode %s" % fields, node=c)
             continue
-        if fmt != "<I" or len(fields) != 1 or \
+        if _fmt_norm(fmt) != _fmt_norm("<I") or len(fields) != 1 or \
                 fields[0] not in ("arg1", "arg2", "arg3"):
             rep.bad("C15-R3", inst, "unexpected unpack %r -> %s" % (fmt,
                                                                      fields),
@@ -496,17 +565,19 @@ def r3_scp_decoder(program, folder, rep):
             continue
         k = int(fields[0][3])
         seen[k] = c
-        if len(c.args) < 3 or chain(c.args[1]) != data_var:
+        if len(c.args) < 2 or chain(c.args[1]) != data_var:
             rep.bad("C15-R3", inst, "arg%d source" % k,
                     "arg%d is not decoded from the body at an explicit "
                     "offset" % k, c)
             continue
-        off = it.sym(c.args[2], node)
+        off_e = c.args[2] if len(c.args) > 2 else ast.copy_location(
+            ast.Constant(value=0), c)
+        off = it.sym(off_e, node)
         st = it.describe(node)
         if not it.holds_at(node, eq(off, 4 * (k - 1))) and \
-                isinstance(c.args[2], ast.Name):
+                isinstance(off_e, ast.Name):
             fl_ = Flow(fn)
-            ds_ = fl_.reaching(c.args[2].id, fl_.cfg.node_containing(c))
+            ds_ = fl_.reaching(off_e.id, fl_.cfg.node_containing(c))
             if len(ds_) > 1:
                 # a running offset advanced under earlier tests: its value
                 # here depends on which of them passed, which the interval
@@ -514,7 +585,7 @@ def r3_scp_decoder(program, folder, rep):
                 raise AnalysisError("SCP decoder: arg%d is read at a "
                                     "running offset (%s) whose value depends "
                                     "on the earlier tests; not followed" %
-                                    (k, c.args[2].id))
+                                    (k, off_e.id))
         rep.check(it.holds_at(node, eq(off, 4 * (k - 1))), "C15-R3", inst,
                   "arg%d is read at body offset %d" % (k, 4 * (k - 1)),
                   construct="arg%d offset" % k, node=c,
